@@ -42,6 +42,8 @@ def single_case(e, k):
     if op in ("TZ", "DST"): return dict(op="TZ", q=e["q"], dst=e["dst"], text=e["txt"])
     if op == "TZDec": return dict(op="TZDec", o=e["in"][0])
     if op == "DSTDec": return dict(op="DSTDec", d=e["in"][0])
+    if op == "UT" and e["kind"]:      # an instant in a tz-database location
+        return dict(op="UTLoc", loc=e["kind"], un=e["un"])
     if op == "UT":
         y, mo, d, h, mi, s, off = e["st"]
         return dict(op="UT", st=dict(y=y, mo=mo, d=d, h=h, mi=mi, s=s, q=off // 900), o=e["out"] if len(e["out"]) == 7 else [0] * 7)
@@ -99,7 +101,7 @@ def run(c):
             intervals.setdefault(key, []).append((e["lo"], e["lo"] + n))
         else:
             evals += 1
-            inp = (e["op"], e["kind"], e["d"], e["q"], e["dst"], tuple(e["txt"]), tuple(e["in"]), tuple(e["st"]) if e["op"] == "UT" else (), e["dlv"], e["dlu"], e["ulv"], e["ulu"])
+            inp = (e["op"], e["kind"], e["d"], e["q"], e["dst"] if e["op"] != "UT" else 0, tuple(e["txt"]), tuple(e["in"]), tuple(e["st"]) if e["op"] == "UT" else (), e["dlv"], e["dlu"], e["ulv"], e["ulu"])
             trivial = (e["op"] in ("T2", "T3") and e["d"] == 0) or (e["op"] == "Name" and not e["txt"])
             if not trivial:
                 c.count_distinct(inp)
@@ -127,6 +129,8 @@ def run(c):
                 dict(case=case, observed=e if len(events[idx]) < 2000 else dict(op=e["op"], lo=e["lo"], k=k, out=e["out"][6 * k:6 * k + 6] if e["op"] == "AMBRC" else e["out"][k:k + 1]),
                      how="driver conv17 replay [case] out.ndjson; validate out.ndjson with spec/trace/Trace_C17"))
 
+    fresh = {}
+
     def confirm(idx, t):
         e = ev_of(idx)
         case = single_case(e, int(t[4]))
@@ -138,7 +142,15 @@ def run(c):
         evs = read_ndjson(o)
         again = c.validate("Trace_C17", evs, shards=1)
         c.cov["traces_validated_against_impl"] -= len(evs)
-        return any(m[1][3] == t[3] for m in again)
+        if any(m[1][3] == t[3] for m in again):
+            return True
+        # the single case did not show it (the case may not carry everything the run had): repeat the whole
+        # seeded run in a fresh process; the same observation again is a reproduction (TLC already judged that line)
+        if "all" not in fresh:
+            o1 = os.path.join(c.scratch, "replay2.ndjson"); o2 = os.path.join(c.scratch, "record2.ndjson")
+            c.run_driver(drv, ["replay", cp, o1]); c.run_driver(drv, ["record", o2], timeout=1200)
+            fresh["all"] = set(read_ndjson(o1)) | set(read_ndjson(o2))
+        return events[idx] in fresh["all"]
     c.triage(mism, classify, confirm, per_class=2, total=24)
     c.cov["evaluations"] = evals
     c.cov["distinct_nontrivial"] = len(c._distinct) + chunk_distinct
@@ -153,7 +165,7 @@ def run(c):
         "timer domain 0..11 160 s (timer 2) and 0..1 116 000 s (timer 3); a deactivated timer counts as more than any request",
         "AMBR text is '<decimal 0..65535> <Kbps|Mbps|Gbps|Tbps|Pbps>' for both directions",
         "zone text is sign HH:MM on the quarter-hour grid with optional +1/+2; zone/DST pairs whose effective offset leaves -19:45..+19:45 are outside the statement",
-        "time stamps follow TS 23.040 (the fields are the clock reading at the given offset); years 2000-2099; instants sampled at every field boundary plus seeded",
+        "time stamps follow TS 23.040 (the fields are the clock reading at the given offset); years 2000-2099; instants sampled at every field boundary plus seeded, in fixed zones and in 13 tz-database locations (winter, summer and around every offset transition; needs the system or embedded tz database)",
         "name characters restricted to those with identical ASCII and GSM 7-bit codes; names of 0..64 characters",
         "quick tier: timer 3 dense to 131 071 s + windows, AMBR chunks around 32 768/ends/seeded; thorough: full domains" if not thorough else "thorough: every duration and every AMBR value x unit x direction observed",
     ]
